@@ -119,3 +119,71 @@ Proof.
   - cbn. lra.
   - change (last (z :: z' :: zs) z0) with (last (z' :: zs) z0). rewrite (last_indep' (z' :: zs) z z0) by discriminate. lra.
 Qed.
+
+(* ---- the SMC incremental weight: under the tempered distribution at b0, the mean incremental weight
+        exp((b1-b0)(log L + log pi - log q)) is Z_{b1}/Z_{b0}  (finite space) ---- *)
+Section Tempered.
+  Context {A : Type}.
+  Variables (pts : list A) (lq lt : A -> R).     (* log proposal density, log (likelihood x prior) *)
+  Hypothesis Hne : pts <> [].
+
+  Definition gam (b : R) (x : A) : R := exp ((1 - b) * lq x + b * lt x).
+  Definition Zb (b : R) : R := vsum (map (gam b) pts).
+  Definition pb (b : R) : list (A * R) := map (fun x => (x, gam b x / Zb b)) pts.
+
+  Lemma Zb_pos b : 0 < Zb b.
+  Proof.
+    unfold Zb. apply vsum_pos.
+    - destruct pts; [congruence|discriminate].
+    - apply Forall_forall. intros t Ht. apply in_map_iff in Ht. destruct Ht as [x [<- _]]. apply exp_pos.
+  Qed.
+
+  Lemma pb_normalised b : vsum (map snd (pb b)) = 1.
+  Proof.
+    unfold pb. rewrite map_map. cbn [snd].
+    replace (map (fun x => gam b x / Zb b) pts) with (map (fun t => t / Zb b) (map (gam b) pts)) by (now rewrite map_map).
+    rewrite vsum_map_div. fold (Zb b). pose proof (Zb_pos b). field. lra.
+  Qed.
+
+  Theorem incremental_weight_expectation b0 b1 :
+    expect (pb b0) (fun x => exp ((b1 - b0) * (lt x - lq x))) = Zb b1 / Zb b0.
+  Proof.
+    unfold expect, pb. rewrite map_map. cbn [fst snd].
+    pose proof (Zb_pos b0) as Hz.
+    replace (map (fun x => gam b0 x / Zb b0 * exp ((b1 - b0) * (lt x - lq x))) pts)
+      with (map (fun t => t / Zb b0) (map (gam b1) pts)).
+    - rewrite vsum_map_div. reflexivity.
+    - rewrite map_map. apply map_ext. intros x. unfold gam.
+      replace ((1 - b1) * lq x + b1 * lt x) with (((1 - b0) * lq x + b0 * lt x) + (b1 - b0) * (lt x - lq x)) by ring.
+      rewrite exp_plus. field. lra.
+  Qed.
+
+  Lemma Zb_0 : Zb 0 = vsum (map (fun x => exp (lq x)) pts).
+  Proof. unfold Zb, gam. f_equal. apply map_ext. intros x. f_equal. ring. Qed.
+  Lemma Zb_1 : Zb 1 = vsum (map (fun x => exp (lt x)) pts).
+  Proof. unfold Zb, gam. f_equal. apply map_ext. intros x. f_equal. ring. Qed.
+
+  (* for ANY ladder starting at 0 and ending at 1, the log mean incremental weights sum to ln(evidence) when q is normalised *)
+  Theorem ladder_targets_evidence (bs : list R) :
+    vsum (map (fun x => exp (lq x)) pts) = 1 -> last bs 0 = 1 ->
+    fold_right Rplus 0 (map (fun ab => ln (expect (pb (fst ab)) (fun x => exp ((snd ab - fst ab) * (lt x - lq x)))))
+                            (combine (0 :: bs) bs))
+    = ln (vsum (map (fun x => exp (lt x)) pts)).
+  Proof.
+    intros Hq Hlast.
+    assert (E : forall l : list (R * R),
+      map (fun ab => ln (expect (pb (fst ab)) (fun x => exp ((snd ab - fst ab) * (lt x - lq x))))) l
+      = map (fun ab => ln (Zb (snd ab)) - ln (Zb (fst ab))) l).
+    { intros l. apply map_ext. intros [a b]. cbn [fst snd]. rewrite incremental_weight_expectation.
+      pose proof (Zb_pos a); pose proof (Zb_pos b). unfold Rdiv. rewrite ln_mult, ln_Rinv; [lra|lra|lra|now apply Rinv_0_lt_compat]. }
+    rewrite E.
+    assert (T : forall b0 l, fold_right Rplus 0 (map (fun ab => ln (Zb (snd ab)) - ln (Zb (fst ab))) (combine (b0 :: l) l))
+                             = ln (Zb (last l b0)) - ln (Zb b0)).
+    { intros b0 l. revert b0. induction l as [|b l IH]; intros b0; [cbn; lra|].
+      change (combine (b0 :: b :: l) (b :: l)) with ((b0, b) :: combine (b :: l) l).
+      cbn [map fold_right fst snd]. rewrite IH.
+      destruct l as [|b' l]; [cbn; lra|].
+      change (last (b :: b' :: l) b0) with (last (b' :: l) b0). rewrite (last_indep' (b' :: l) b b0) by discriminate. lra. }
+    rewrite T, Hlast, Zb_1, Zb_0, Hq, ln_1. lra.
+  Qed.
+End Tempered.
